@@ -416,6 +416,9 @@ except ImportError:
                 text = text.replace("<", "&lt;")
             if ">" in text:
                 text = text.replace(">", "&gt;")
+            if "\r" in text:
+                # a parser would turn a literal carriage return into a newline
+                text = text.replace("\r", "&#13;")
             return text
         except (TypeError, AttributeError):
             _raise_serialization_error(text)
@@ -432,8 +435,14 @@ except ImportError:
                 text = text.replace(">", "&gt;")
             if '"' in text:
                 text = text.replace('"', "&quot;")
+            # like lxml, write the white space characters that an XML parser
+            # would otherwise normalise to a space as character references
             if "\n" in text:
                 text = text.replace("\n", "&#10;")
+            if "\t" in text:
+                text = text.replace("\t", "&#9;")
+            if "\r" in text:
+                text = text.replace("\r", "&#13;")
             return text
         except (TypeError, AttributeError):
             _raise_serialization_error(text)
